@@ -258,7 +258,9 @@ class PolicyOracle:
                                                                               f'made it send a request to {wrong[0]["dst"]}')
                 if str(conn['peer_addr']) in cur['est_peers']:
                     self._r('acquire_reused_ike_sa')
-                    if any(x['h']['exch'] == 34 for x in reqs if x['dst'] == str(conn['peer_addr'])):
+                    # (a fresh IKE_SA_INIT, not the retransmission timer of an older half-open initiator IKE_SA firing in the same iteration)
+                    earlier = {x['h']['spi_i'] for x in self.wire.by_sender.get(N, [])[:cur['sent0']] if x['h'] is not None and x['h']['exch'] == 34}
+                    if any(x['h']['exch'] == 34 and x['h']['spi_i'] not in earlier for x in reqs if x['dst'] == str(conn['peer_addr'])):
                         return self.viol('acquire_did_not_reuse_ike_sa', {}, f'{N}: ACQUIRE for index {idx} started a new IKE_SA_INIT although an '
                                                                               f'established IKE_SA with {conn["peer_addr"]} existed')
             elif not any((p['index'] == idx) for p in kern.spd if p['dir'] == K['XFRM_POLICY_OUT'] and p.get('req_no')):
@@ -502,7 +504,15 @@ def run(scenario):
             ok, why = data_plane_probe(w, 'A', 'B', op['flow'])
             ctx['probes'].append((round(w.now, 1), ok, why))
             if not ok:
+                # no SA right now: let the kernel see traffic (ACQUIRE) and look again once a lossless handshake has had time (looking only
+                # at probe instants makes the verdict depend on how the probe period resonates with short lifetimes; thorough soak, seed 501013709)
                 w.packet('A', op['flow'])
+
+                def recheck():
+                    if w.nodes['A'].state == 'running' and w.nodes['B'].state == 'running':
+                        ok2, why2 = data_plane_probe(w, 'A', 'B', op['flow'])
+                        ctx['probes'].append((round(w.now, 1), ok2, why2))
+                w.after(2.0, recheck, 'probe.recheck')
         def spoof_init(w, op):
             node = w.nodes[op['node']]
             if node.state != 'running' or node.exited:
